@@ -359,6 +359,16 @@ def run(tier, report):
         raise core.MachineryError("RefusesForeignPoint = FALSE (D41) gave no counterexample")
     report.notes["expected_counterexamples"] = [{"cfg": "FieldDecimal_pinned.cfg", "violated": pinned.violated,
                                                  "deviation": "D41 a '.' that is no separator of the data format is read as decimal point"}]
+    pinned = core.tlc("MCFieldDateTime", "FieldDateTime_pinned_onepass.cfg", expect_violation=True, coverage=False)
+    if pinned.violated != "DateMeansWhatItSays":
+        raise core.MachineryError("OnePassTranslation = FALSE (D71) gave no counterexample")
+    report.notes["expected_counterexamples"].append({"cfg": "FieldDateTime_pinned_onepass.cfg", "violated": pinned.violated,
+                                                     "deviation": "D71 date rules translated by successive replacements"})
+    # vacuity guard: every layout of the model constants shows up among the behaviours
+    layouts = {core.json.dumps(vec["layout"]) for family, vec in jobs if family == "datetime"}
+    if len(layouts) < 59:
+        raise core.MachineryError("only %d date layouts have behaviours (59 are configured)" % len(layouts))
+    report.notes["date_layouts_with_behaviours"] = len(layouts)
     if tier == "quick":
         # the date family is the largest: replay every mutation and every rejection, and a third of the plain acceptances
         rng = core.rng(2)
